@@ -6,6 +6,8 @@ any hits): pulse count formula, gap-free numbering in object order, ownership.
 -/
 import Pmn.Proofs.TopoLemmas
 import Pmn.Model.Const
+import Mathlib.Order.Defs.LinearOrder
+import Mathlib.Order.Basic
 
 namespace Pmn.Props.C12
 open Pmn.Topo Pmn.TopoLemmas
@@ -186,6 +188,92 @@ theorem C12_match_local {K : Type} [Add K] [Sub K] [Mul K] [HasSqrt K] [BEq K] [
 
 /-- the tolerance factor of the current source is 1/1000 -/
 theorem C12_tolerance : Pmn.Const.matchTol = ⟨1, 1000⟩ ∧ Pmn.Const.groundTol = ⟨1, 1000⟩ := by decide
+
+/-! ### the shortest segment -/
+
+section MinSeg
+variable {K : Type} [LinearOrder K]
+
+theorem foldl_min_le (r : List K) (x : K) :
+    r.foldl (fun m y => if y < m then y else m) x ≤ x ∧
+    ∀ y ∈ r, r.foldl (fun m y => if y < m then y else m) x ≤ y := by
+  induction r generalizing x with
+  | nil => simp
+  | cons a r ih =>
+    simp only [List.foldl_cons, List.mem_cons]
+    by_cases h : a < x
+    · rw [if_pos h]
+      obtain ⟨h1, h2⟩ := ih a
+      refine ⟨le_trans h1 (le_of_lt h), ?_⟩
+      intro y hy
+      rcases hy with rfl | hy
+      · exact h1
+      · exact h2 y hy
+    · rw [if_neg h]
+      obtain ⟨h1, h2⟩ := ih x
+      refine ⟨h1, ?_⟩
+      intro y hy
+      rcases hy with rfl | hy
+      · exact le_trans h1 (not_lt.mp h)
+      · exact h2 y hy
+
+theorem foldl_min_mem (r : List K) (x : K) :
+    r.foldl (fun m y => if y < m then y else m) x = x ∨
+    r.foldl (fun m y => if y < m then y else m) x ∈ r := by
+  induction r generalizing x with
+  | nil => simp
+  | cons a r ih =>
+    simp only [List.foldl_cons, List.mem_cons]
+    by_cases h : a < x
+    · rw [if_pos h]
+      rcases ih a with h1 | h1
+      · right; left; exact h1
+      · right; right; exact h1
+    · rw [if_neg h]
+      rcases ih x with h1 | h1
+      · left; exact h1
+      · right; right; exact h1
+
+/-- `minOf` is a lower bound of the list and one of its elements -/
+theorem minOf_spec (d : K) (l : List K) (hl : l ≠ []) :
+    minOf d l ∈ l ∧ ∀ y ∈ l, minOf d l ≤ y := by
+  cases l with
+  | nil => exact absurd rfl hl
+  | cons x r =>
+    simp only [minOf, List.mem_cons]
+    obtain ⟨h1, h2⟩ := foldl_min_le r x
+    refine ⟨?_, ?_⟩
+    · rcases foldl_min_mem r x with h | h
+      · left; exact h
+      · right; exact h
+    · intro y hy
+      rcases hy with rfl | hy
+      · exact h1
+      · exact h2 y hy
+
+/-- **the joining tolerance refers to the shortest segment of the whole structure**: `minSegLen` is the length of
+some segment of some object and no segment of any object is shorter (every object has at least one segment) -/
+theorem C12_min_seglen (d : K) (objs : List (List K)) (hne : objs ≠ []) (hseg : ∀ o ∈ objs, o ≠ []) :
+    (∃ o ∈ objs, minSegLen d objs ∈ o) ∧ ∀ o ∈ objs, ∀ s ∈ o, minSegLen d objs ≤ s := by
+  have hm : objs.map (minOf d) ≠ [] := by simpa using hne
+  obtain ⟨hmem, hle⟩ := minOf_spec d (objs.map (minOf d)) hm
+  constructor
+  · obtain ⟨o, ho, he⟩ := List.mem_map.mp hmem
+    refine ⟨o, ho, ?_⟩
+    unfold minSegLen
+    rw [← he]
+    exact (minOf_spec d o (hseg o ho)).1
+  · intro o ho s hs
+    have h1 : minSegLen d objs ≤ minOf d o := hle _ (List.mem_map_of_mem ho)
+    exact le_trans h1 ((minOf_spec d o (hseg o ho)).2 s hs)
+
+end MinSeg
+
+/-- the former rule took the first segment of a tapered wire / a curve: a wire tapered from its second end
+(segments 8, 4, 2, 1) next to a wire with segments of length 5 gave 5 as the shortest segment instead of 1 -/
+theorem C12_min_seglen_defect_witness :
+    minSegLenFirst (0 : Nat) [[8, 4, 2, 1], [5, 5, 5]] = 5 ∧ minSegLen (0 : Nat) [[8, 4, 2, 1], [5, 5, 5]] = 1 := by
+  decide
 
 /-! non-vacuity: a three-wire star from one point (wire 2 and 3 attach to end 0 of wire 1), one of
 them grounded at its far end: 3·(2−1) + 1 + 2 = 6 pulses -/
